@@ -17,6 +17,7 @@ import (
 	"math/rand"
 	"reflect"
 	"runtime"
+	"strconv"
 	"strings"
 	"sync"
 	"sync/atomic"
@@ -371,6 +372,9 @@ func drawScenario(rng *rand.Rand, big bool) joeScenario {
 		np = 4 + rng.Intn(6)
 	}
 	groups := 1 + rng.Intn(3)
+	if lateResumer {
+		groups = 1 // one publisher: the publications are stored in program order, so the late subscriber's ID is a known one
+	}
 	for p := 0; p < np; p++ {
 		pb := joePub{topics: drawTopics(rng.Intn(10) == 0), group: rng.Intn(groups)}
 		if (strings.HasPrefix(sc.rep, "finite") || strings.HasPrefix(sc.rep, "valid")) && rng.Intn(7) == 0 {
@@ -378,6 +382,12 @@ func drawScenario(rng *rand.Rand, big bool) joeScenario {
 		}
 		if strings.HasPrefix(sc.rep, "valid") {
 			pb.tick = pick(rng, 0, 0, 1, 1, 1, 2)
+		}
+		if lateResumer {
+			pb.badID, pb.tick = false, 0
+			if len(pb.topics) == 0 {
+				pb.topics = []int{0}
+			}
 		}
 		sc.pubs = append(sc.pubs, pb)
 	}
@@ -423,7 +433,14 @@ func drawScenario(rng *rand.Rand, big bool) joeScenario {
 		for t := range all {
 			all[t] = t
 		}
-		sc.subs = append(sc.subs, joeSub{topics: all, last: fmt.Sprintf("n%d", rng.Intn(np)), failAt: 1 + rng.Intn(3),
+		// the ID presented: one of the oldest still held (the replay then runs across the ring's wrap point)
+		held := np
+		if f := strings.Split(sc.rep, ":"); len(f) == 2 && f[0] == "finite" {
+			if n, err := strconv.Atoi(f[1]); err == nil && n < np {
+				held = n
+			}
+		}
+		sc.subs = append(sc.subs, joeSub{topics: all, last: fmt.Sprintf("n%d", np-held+rng.Intn(2)), failAt: 1 + rng.Intn(2),
 			cancel: pick(rng, "-", "-", "fail"), startAt: fmt.Sprintf("p%d", np-1)})
 	}
 	nsh := rng.Intn(3)
